@@ -65,7 +65,7 @@ where
                 });
             }
 
-            if pushed_len == 0 && stored_len == real_stored_len {
+            if pushed_len == 0 && stored_len == real_stored_len && !pages.has_unflushed_changes() {
                 return Ok(false);
             }
 
